@@ -168,6 +168,19 @@ class NativeProber(Prober):
         self.cache = {}
 
 
+def find_row_pair(pr, depth, row, rng, tries=400, key_len=4):
+    """Two keys that own the same counter in exactly one chosen row (and different counters in every other row), found by
+    probing; None if none turns up."""
+    keys = [bytes(rng.integers(0, 256, key_len, dtype=np.uint8)) for _ in range(tries)]
+    cells = [pr.cells(k) for k in keys]
+    for i in range(len(keys)):
+        for j in range(i):
+            same = [cells[i][x] == cells[j][x] for x in range(depth)]
+            if same[row] and sum(same) == 1:
+                return keys[i], keys[j]
+    return None
+
+
 # ---------------------------------------------------------------------------------------------
 # controlling random draws of log sketches
 # ---------------------------------------------------------------------------------------------
